@@ -72,6 +72,27 @@ def apply_step(c, st):
         c.connect_circuit(other, list(st[2]), list(st[3]), right_connect=st[4], name=st[5], add_prefix=st[6])
         if circ_to_json(other) != before:
             raise AssertionError('attached circuit was modified')
+    elif name == 'wrap':
+        # the five wrappers, called as a user calls them: ['wrap', which, other, thisC|None, otherC|None, right, name, addp]
+        _, which, oj, thisc, otherc, right, bname, addp = st
+        other = circ_from_json(oj)
+        before = circ_to_json(other)
+        if which == 'connect_left':
+            c.connect_left(other, list(thisc), name=bname, add_prefix=addp)
+        elif which == 'connect_right':
+            c.connect_right(other, list(otherc), name=bname, add_prefix=addp)
+        elif which == 'connect_inputs':
+            c.connect_inputs(other, name=bname, add_prefix=addp)
+        elif which == 'extend':
+            c.extend_circuit(other, this_connectors=None if thisc is None else list(thisc),
+                             other_connectors=None if otherc is None else list(otherc),
+                             right_connect=right, name=bname, add_prefix=addp)
+        elif which == 'add':
+            c.add_circuit(other, name=bname, add_prefix=addp)
+        else:
+            raise ValueError('unknown wrapper ' + which)
+        if circ_to_json(other) != before:
+            raise AssertionError('attached circuit was modified')
     elif name == 'replace_subcircuit':
         sub = circ_from_json(st[1])
         c.replace_subcircuit(sub, dict(map(tuple, st[2])), dict(map(tuple, st[3])))
